@@ -542,7 +542,9 @@ class _SteppedPatternBuilder(Generic[TResult]):
         date_extractor: Callable[[TResult], LocalDate],
         eventual_result_type: type[TResult],
     ) -> None:
-        template_value = date_bucket_extractor(self._create_sample_bucket())._template_value
+        sample_date_bucket = date_bucket_extractor(self._create_sample_bucket())
+        template_value = sample_date_bucket._template_value
+        two_digit_year_max = sample_date_bucket._two_digit_year_max
         self._add_field(_PatternFields.EMBEDDED_DATE, character_in_pattern)
 
         def parse_action(bucket: _ParseBucket[TResult], value: LocalDate) -> None:
@@ -556,7 +558,7 @@ class _SteppedPatternBuilder(Generic[TResult]):
 
         self._add_embedded_pattern(
             LocalDatePattern._create(
-                embedded_pattern_text, self.__format_info, template_value, LocalDatePattern._DEFAULT_TWO_DIGIT_YEAR_MAX
+                embedded_pattern_text, self.__format_info, template_value, two_digit_year_max
             )._underlying_pattern,
             parse_action,
             date_extractor,
